@@ -22,7 +22,6 @@
  * assertions, so everything here is a bounded stand-in (LMAX characters, MMAX bytes); see run/props/C18.py.
  */
 #include <ctype.h>
-#include <stdarg.h>
 #include <stdio.h>
 #include <stdlib.h>
 #include <string.h>
@@ -59,20 +58,21 @@ static void emit_hex(unsigned v, int width, int zero, const char *digits)
 		emit(tmp[--k]);
 }
 
-/* the subset of printf that a hex dump can reasonably use: literal text, %%, %c, %s, %[0][w]x, %[0][w]X */
-int verif_fprintf(FILE *f, const char *fmt, ...);
-int verif_fprintf(FILE *f, const char *fmt, ...)
+/* the subset of printf that a hex dump can reasonably use: literal text, %%, %c, %s, %[0][w]x, %[0][w]X, with at
+ * most two arguments (handed over as integers by the macro below, so that no va_list object is needed per call) */
+static int verif_out(const char *fmt, intptr_t a0, intptr_t a1)
 {
-	va_list ap;
-	unsigned before = g_len;
-	(void)f;
-	va_start(ap, fmt);
+	unsigned before = g_len, argi = 0;
 	for (unsigned i = 0; fmt[i] != 0 && i < 16; i++) {
 		if (fmt[i] != '%') {
 			emit(fmt[i]);
 			continue;
 		}
 		i++;
+		if (fmt[i] == '%') {
+			emit('%');
+			continue;
+		}
 		int zero = 0, width = 0;
 		if (fmt[i] == '0') {
 			zero = 1;
@@ -80,16 +80,19 @@ int verif_fprintf(FILE *f, const char *fmt, ...)
 		}
 		if (fmt[i] >= '1' && fmt[i] <= '9')
 			width = fmt[i++] - '0';
+		if (argi >= 2) {
+			g_lost++;
+			break;
+		}
+		intptr_t arg = argi++ == 0 ? a0 : a1;
 		if (fmt[i] == 'c')
-			emit((unsigned char)va_arg(ap, int));
+			emit((unsigned char)arg);
 		else if (fmt[i] == 'x')
-			emit_hex(va_arg(ap, unsigned), width, zero, "0123456789abcdef");
+			emit_hex((unsigned)arg, width, zero, "0123456789abcdef");
 		else if (fmt[i] == 'X')
-			emit_hex(va_arg(ap, unsigned), width, zero, "0123456789ABCDEF");
-		else if (fmt[i] == '%')
-			emit('%');
+			emit_hex((unsigned)arg, width, zero, "0123456789ABCDEF");
 		else if (fmt[i] == 's') {
-			const char *s = va_arg(ap, const char *);
+			const char *s = (const char *)arg;
 			for (unsigned j = 0; s[j] != 0 && j < 16; j++)
 				emit(s[j]);
 		} else {
@@ -97,9 +100,10 @@ int verif_fprintf(FILE *f, const char *fmt, ...)
 			break;
 		}
 	}
-	va_end(ap);
 	return (int)(g_len - before);
 }
+#define VERIF_OUT3(fmt, a, b, ...) verif_out(fmt, (intptr_t)(a), (intptr_t)(b))
+#define verif_fprintf(f, ...) VERIF_OUT3(__VA_ARGS__, 0, 0, 0)
 int verif_fputc(int c, FILE *f);
 int verif_fputc(int c, FILE *f)
 {
@@ -116,7 +120,7 @@ int verif_fputs(const char *s, FILE *f)
 	return 0;
 }
 
-#define fprintf verif_fprintf
+#define fprintf(...) verif_fprintf(__VA_ARGS__)
 #undef fputc
 #define fputc verif_fputc
 #undef putc
